@@ -17,16 +17,22 @@ theorem addrOf_member (S : List Nat) (hS : SufOK S) (x : Nat) (h : x ∈ S) : ad
   · omega
   · rfl
 
-def Inv (S : List Nat) (t10 : Nat) (order : List String → List String) (r : Rec) : Prop :=
+/-- the only way an emitted voteproof is not what the validator recounts: the recount's majority is an
+    empty-proposal fact, which `SetMajority` did not set (the voteproof reads DRAW) -/
+def EmptyMajority (empty : String → Bool) (S : List Nat) (t10 : Nat) (order : List String → List String) (vp : VP) : Prop :=
+  ∃ f, empty f = true ∧ vp.majority = none ∧
+    findVoteResult S.length (required S.length t10) (vp.votes.map (·.2)) (order (vp.votes.map (·.2))) = .majority f
+
+def Inv (empty : String → Bool) (S : List Nat) (t10 : Nat) (order : List String → List String) (r : Rec) : Prop :=
   (∀ v, v ∈ r.voted → v.1 ∈ S) ∧ (r.voted.map (·.1)).Nodup ∧
-  (∀ vp, vp ∈ r.emitted → validWith S t10 (order (vp.votes.map (·.2))) vp = true ∧ vp.expels = [] ∧
+  (∀ vp, vp ∈ r.emitted → (validWith S t10 (order (vp.votes.map (·.2))) vp = true ∨ EmptyMajority empty S t10 order vp) ∧ vp.expels = [] ∧
       (∀ v, v ∈ vp.votes → v.1 ∈ S)) ∧
   (r.emitted ≠ [] → r.finished = true) ∧ r.emitted.length ≤ 1
 
 theorem nodupB_of (l : List Nat) (h : l.Nodup) : Voteproof.nodup l = true := by simp [Voteproof.nodup, h]
 
-theorem inv_count (S : List Nat) (t10 : Nat) (order : List String → List String) (r : Rec)
-    (h : Inv S t10 order r) : Inv S t10 order (countRec S t10 order r) := by
+theorem inv_count (empty : String → Bool) (S : List Nat) (t10 : Nat) (order : List String → List String) (r : Rec)
+    (h : Inv empty S t10 order r) : Inv empty S t10 order (countRec empty S t10 order r) := by
   obtain ⟨h1, h2, h3, h4, h5⟩ := h
   simp only [countRec]
   split
@@ -49,22 +55,29 @@ theorem inv_count (S : List Nat) (t10 : Nat) (order : List String → List Strin
       simp only [hem, List.nil_append, List.mem_singleton] at hvp
       subst hvp
       refine ⟨?_, rfl, h1⟩
-      simp [validWith, reduced, expectedRes, hne, nodupB_of _ h2, hall, hres]
-      exact fun a b hab => h1 (a, b) hab
+      cases he : empty f with
+      | false =>
+        left
+        simp [validWith, reduced, expectedRes, hne, nodupB_of _ h2, hall, hres]
+        exact fun a b hab => h1 (a, b) hab
+      | true =>
+        right
+        exact ⟨f, he, by simp, hres⟩
     · rename_i hres
       refine ⟨h1, h2, ?_, by simp, by simp [hem]⟩
       intro vp hvp
       simp only [hem, List.nil_append, List.mem_singleton] at hvp
       subst hvp
       refine ⟨?_, rfl, h1⟩
+      left
       simp [validWith, reduced, expectedRes, hne, nodupB_of _ h2, hall, hres]
       exact fun a b hab => h1 (a, b) hab
     · exact ⟨h1, h2, h3, h4, h5⟩
 
-theorem inv_step (S : List Nat) (hS : SufOK S) (t10 : Nat) (order : List String → List String) (r : Rec) (o : Op)
-    (h : Inv S t10 order r) : Inv S t10 order (step true S t10 order r o) := by
+theorem inv_step (empty : String → Bool) (S : List Nat) (hS : SufOK S) (t10 : Nat) (order : List String → List String) (r : Rec) (o : Op)
+    (h : Inv empty S t10 order r) : Inv empty S t10 order (step empty true S t10 order r o) := by
   cases o with
-  | count => exact inv_count S t10 order r h
+  | count => exact inv_count empty S t10 order r h
   | vote signer fact =>
     simp only [step]
     split
@@ -131,45 +144,72 @@ theorem inv_step (S : List Nat) (hS : SufOK S) (t10 : Nat) (order : List String 
             obtain ⟨v, hv, rfl⟩ := List.mem_map.mp ha
             exact ⟨v, hv, rfl⟩
 
-theorem inv_run (S : List Nat) (hS : SufOK S) (t10 : Nat) (order : List String → List String) (ops : List Op) (r : Rec)
-    (h : Inv S t10 order r) : Inv S t10 order (run true S t10 order r ops) := by
+theorem inv_run (empty : String → Bool) (S : List Nat) (hS : SufOK S) (t10 : Nat) (order : List String → List String) (ops : List Op) (r : Rec)
+    (h : Inv empty S t10 order r) : Inv empty S t10 order (run empty true S t10 order r ops) := by
   induction ops generalizing r with
   | nil => exact h
-  | cons o os ih => exact ih _ (inv_step S hS t10 order r o h)
+  | cons o os ih => exact ih _ (inv_step empty S hS t10 order r o h)
 
-theorem inv_empty (S : List Nat) (t10 : Nat) (order : List String → List String) : Inv S t10 order emptyRec := by
+theorem inv_empty (empty : String → Bool) (S : List Nat) (t10 : Nat) (order : List String → List String) : Inv empty S t10 order emptyRec := by
   refine ⟨by simp [emptyRec], by simp [emptyRec], by simp [emptyRec], by simp [emptyRec], by simp [emptyRec]⟩
 
-/-- **emitted_sound_partial.**  Ballots without expels: whatever sign facts arrive for the stage point, in
-whatever order, interleaved with whatever counts, every voteproof the box emits passes the validation other
-nodes apply (the C03 model of `IsValid` + `IsValidVoteproofWithSuffrage`, under the same map iteration
-order): its sign facts are of distinct suffrage nodes under their own keys and its result is the recount of
-exactly those sign facts.  At most one voteproof is emitted for the stage point. -/
-theorem emitted_sound_partial (S : List Nat) (hS : SufOK S) (t10 : Nat) (order : List String → List String) (ops : List Op) :
-    (∀ vp, vp ∈ (run true S t10 order emptyRec ops).emitted →
-      validWith S t10 (order (vp.votes.map (·.2))) vp = true ∧ vp.expels = [] ∧ (∀ v, v ∈ vp.votes → v.1 ∈ S)) ∧
-    (run true S t10 order emptyRec ops).emitted.length ≤ 1 := by
-  have h := inv_run S hS t10 order ops emptyRec (inv_empty S t10 order)
+/-- **emitted_sound_or_empty.**  Ballots without expels: whatever sign facts arrive for the stage point, in
+whatever order, interleaved with whatever counts, every voteproof the box emits holds sign facts of distinct
+suffrage nodes under their own keys, and EITHER passes the validation other nodes apply (the C03 model of
+`IsValid` + `IsValidVoteproofWithSuffrage`, under the same map iteration order: its result is the recount of
+exactly those sign facts) OR the recount's majority is an empty-proposal fact and the voteproof reads DRAW.
+At most one voteproof is emitted for the stage point. -/
+theorem emitted_sound_or_empty (empty : String → Bool) (S : List Nat) (hS : SufOK S) (t10 : Nat) (order : List String → List String) (ops : List Op) :
+    (∀ vp, vp ∈ (run empty true S t10 order emptyRec ops).emitted →
+      (validWith S t10 (order (vp.votes.map (·.2))) vp = true ∨ EmptyMajority empty S t10 order vp) ∧
+      vp.expels = [] ∧ (∀ v, v ∈ vp.votes → v.1 ∈ S)) ∧
+    (run empty true S t10 order emptyRec ops).emitted.length ≤ 1 := by
+  have h := inv_run empty S hS t10 order ops emptyRec (inv_empty empty S t10 order)
   exact ⟨h.2.2.1, h.2.2.2.2⟩
+
+/-- **emitted_sound_partial.**  … and when no empty-proposal fact is voted on (expels and empty-proposal facts
+are the two excluded cases; each has its witness below), every emitted voteproof passes the validation. -/
+theorem emitted_sound_partial (S : List Nat) (hS : SufOK S) (t10 : Nat) (order : List String → List String) (ops : List Op) :
+    (∀ vp, vp ∈ (run noEmpty true S t10 order emptyRec ops).emitted →
+      validWith S t10 (order (vp.votes.map (·.2))) vp = true ∧ vp.expels = [] ∧ (∀ v, v ∈ vp.votes → v.1 ∈ S)) ∧
+    (run noEmpty true S t10 order emptyRec ops).emitted.length ≤ 1 := by
+  have h := emitted_sound_or_empty noEmpty S hS t10 order ops
+  refine ⟨?_, h.2⟩
+  intro vp hvp
+  obtain ⟨h1, h2, h3⟩ := h.1 vp hvp
+  refine ⟨?_, h2, h3⟩
+  rcases h1 with h1 | ⟨f, hf, _⟩
+  · exact h1
+  · simp [noEmpty] at hf
+
+/-- ✗ known finding C04:empty-proposal-majority-recounts-as-majority — three nodes vote the empty-proposal
+fact `E`: the box finishes a voteproof without a majority (DRAW, as `SetMajority` intends), the validation
+other nodes apply recounts MAJORITY and rejects it -/
+theorem empty_majority_witness :
+    let S := [1, 2, 3]
+    let r := run (fun f => f == "E") true S 670 keysOf emptyRec [.vote 1 "E", .vote 2 "E", .vote 3 "E"]
+    r.emitted = [{ votes := [(1, "E"), (2, "E"), (3, "E")], expels := [], majority := none }] ∧
+    validWith S 670 (keysOf ["E", "E", "E"]) { votes := [(1, "E"), (2, "E"), (3, "E")], expels := [], majority := none } = false := by
+  decide
 
 /-- the repaired rule is needed: without the key comparison a sign fact under a foreign key enters the
 voteproof, and the voteproof the box emits is rejected by every other node -/
 theorem foreign_key_witness :
     let S := [1, 2, 3]
-    let r := run false S 670 keysOf emptyRec [.vote 101 "A", .vote 2 "A", .vote 3 "A"]
+    let r := run noEmpty false S 670 keysOf emptyRec [.vote 101 "A", .vote 2 "A", .vote 3 "A"]
     r.emitted = [{ votes := [(101, "A"), (2, "A"), (3, "A")], expels := [], majority := some "A" }] ∧
     (∀ vp, vp ∈ r.emitted → validWith S 670 (keysOf (vp.votes.map (·.2))) vp = false) := by
   refine ⟨by decide, ?_⟩
   intro vp hvp
   have : vp = { votes := [(101, "A"), (2, "A"), (3, "A")], expels := [], majority := some "A" } := by
-    have h : (run false [1, 2, 3] 670 keysOf emptyRec [.vote 101 "A", .vote 2 "A", .vote 3 "A"]).emitted =
+    have h : (run noEmpty false [1, 2, 3] 670 keysOf emptyRec [.vote 101 "A", .vote 2 "A", .vote 3 "A"]).emitted =
         [{ votes := [(101, "A"), (2, "A"), (3, "A")], expels := [], majority := some "A" }] := by decide
     simpa [h] using hvp
   subst this
   decide
 
 /-- with the key comparison the same ballots: the foreign sign fact is dropped, node 1 can still vote -/
-example : (run true [1, 2, 3] 670 keysOf emptyRec [.vote 101 "A", .vote 2 "A", .vote 3 "A", .vote 1 "A"]).emitted =
+example : (run noEmpty true [1, 2, 3] 670 keysOf emptyRec [.vote 101 "A", .vote 2 "A", .vote 3 "A", .vote 1 "A"]).emitted =
     [{ votes := [(2, "A"), (3, "A"), (1, "A")], expels := [], majority := some "A" }] := by decide
 
 /-- the two counting rules for ballots with expels disagree when the number of expels is at most
